@@ -37,8 +37,8 @@ def resumeOk (t : List Act) : Bool :=
   let est := anns == [established]
   anns.length == 1 &&
   (t.any isSpawn == est) &&
-  (t.filter isSpawn == if est then [.spawn "c.recv"] else []) &&
-  (!est || (t.contains .write && t.contains (.call "stanza.NextPacket") && retLabel t == "err" &&
+  (t.filter isSpawn == if est then [.spawn "Component.recv"] else []) &&
+  (!est || (t.contains .write && t.contains (.call "stanza.NextPacket") && retLabel t == "error" &&
             noneAfter (· == established) (fun a => a == .write || a == .call "stanza.NextPacket") t)) &&
   (est || (retLabel t).startsWith "NewConnError(")
 
@@ -55,7 +55,7 @@ def hooks : List String := ["Client.PostConnectHook", "Client.PostResumeHook"]
 /-- Client.Connect / Client.Resume on every path -/
 def connectOk (t : List Act) : Bool :=
   let sp := t.filter isSpawn
-  (sp == [] || sp == [.spawn "keepalive", .spawn "c.recv"]) &&
+  (sp == [] || sp == [.spawn "keepalive", .spawn "Client.recv"]) &&
   -- nothing is started before connect() was called, nor before the application's hook has run
   noneAfter isSpawn (fun a => isCall ("Client.connect" :: hooks) a) t &&
   -- a path that starts them returns right after: keepalive, receiver, return
@@ -140,8 +140,8 @@ theorem stop_every_path :
 
 -- the predicates are not vacuous: they refuse a keepalive started before the hook, a receive loop started on the
 -- stream-error arm, an established state announced after a failed NewSession
-example : connectOk [.call "Client.connect", .spawn "keepalive", .call "Client.PostResumeHook", .call "return err"] = false := by decide
-example : resumeOk [.write, .call "stanza.NextPacket", .call "Component.streamError(\"conflict\",\"no auth loop\")", .spawn "c.recv",
+example : connectOk [.call "Client.connect", .spawn "keepalive", .call "Client.PostResumeHook", .call "return error"] = false := by decide
+example : resumeOk [.write, .call "stanza.NextPacket", .call "Component.streamError(\"conflict\",\"no auth loop\")", .spawn "Component.recv",
     .call "return NewConnError(x)"] = false := by decide +kernel
 example : innerConnectOk [.call "Transport.Connect", .call "NewSession", .call "Transport.GetDecoder", .spawn "func literal",
     .call "Client.Disconnect", sessEst, .call "return err"] = false := by decide +kernel
